@@ -695,6 +695,19 @@ def run_history(spec, hseed, steps, driver, props, mode="prim", stress=False):
                 had_cut = True
             if "C09" in props:
                 viol += [dict(v, step=desc) for v in order_monitor(b, events)]
+            if "C01" in props:
+                # with a registry: a call that starts has, IN THIS RUN, seen every call without a store it depends on (argument,
+                # keyword or add_dependency) return - also when the path between them runs through an up-to-date stored value
+                returned = set()
+                for e in events:
+                    if e[0] == "ret":
+                        returned.add(e[1])
+                    elif e[0] == "call":
+                        nd_c = spec["nodes"][e[1]]
+                        for u in set(nd_c["args"]) | set(nd_c["deps"]):
+                            if u not in b.stores and b.kinds[u] in ("call", "producer") and u not in returned:
+                                viol.append({"property": "C01", "what": f"call {e[1]} started although call {u}, which it depends on "
+                                             f"directly, had not returned in this run", "step": desc})
         elif r < 0.82:
             srcs = [nd["id"] for nd in spec["nodes"] if nd["kind"] == "source"]
             if srcs:
